@@ -56,7 +56,9 @@ def _spec(cls, cons, speculative, split):
             "samplers": [{"method": "verif/design", "options": {"samples": np.eye(V).tolist()}}],
             "ensemble": {"kind": "quad", "a": rng.normal(size=(R, F, V)).tolist(), "b": rng.normal(size=(R, F)).tolist(),
                          "q": [1.0, 0.5][:F], "c": rng.normal(size=(R, V)).tolist()}, "nan": [],
-            "optimizer": {"method": c["method"], "speculative": speculative, "split_evaluations": split, "parallel": bool(c.get("parallel"))}}
+            # the method name under the spellings a configuration may use (bare, qualified, other case)
+            "optimizer": {"method": [c["method"], "scipy/" + c["method"], c["method"].upper(), "SciPy/" + c["method"].title()][(2 * int(speculative) + int(split) + len(cons)) % 4],
+                          "speculative": speculative, "split_evaluations": split, "parallel": bool(c.get("parallel"))}}
     if n_con:
         spec["con_lb"], spec["con_ub"] = [-0.4], [0.9]     # two-sided -> 2 normalized rows
         if cls == "cobyla":
